@@ -406,6 +406,7 @@ func (m *Meta) AlterRename(table string, from, to []string) *Meta {
 			}
 		}
 		ix.Columns = cols
+		ix.Fields = replace(ix.Fields, from, to)
 		ix.BestKey = replace(ix.BestKey, from, to)
 		// Update Fk.Columns for recursive foreign keys (table references itself)
 		// because Fk.Columns contains target column names which are in this table
